@@ -239,6 +239,94 @@ def late_receipt_session(delay, keepalive, segmented):
     return obs
 
 
+def receipt_during_teardown_session(hook_sleep, reset_after):
+    """M is accepted (id mm1); an older message A is never answered (time-to-live 1 s). The receipt for M arrives after A's time-to-live:
+    get_delivery() runs the sweep, which awaits the application's send_error hook for A (`hook_sleep` s); `reset_after` s into it the
+    connection is lost, the session is torn down and the receiver is cancelled inside the handling of the receipt (which is not
+    answered). The SMSC repeats the unanswered receipt on the next session: it must still find its message."""
+    import struct
+    from harness import vsess
+    from aiosmpplib.protocol import SubmitSm, DeliverSm
+    from aiosmpplib.state import PhoneNumber
+    from aiosmpplib.correlator import SimpleCorrelator
+    from aiosmpplib.retrytimer import SimpleExponentialBackoff
+    loop = vsess.VLoop()
+    asyncio.set_event_loop(loop)
+    smsc = vsess.FakeSMSC(loop)
+    undo = vsess.install(loop, smsc)
+    obs = {'count': 0}
+    try:
+        esme, hook = vsess.quiet_esme(enquire_link_interval=50.0, socket_timeout=100.0, correlator=SimpleCorrelator('crt', max_ttl_response=1.0),
+                                      retry_timer=SimpleExponentialBackoff(200, 2))
+
+        def rc(seq):
+            text = b'id:mm1 sub:001 dlvrd:001 submit date:2401011200 done date:2401011201 stat:DELIVRD err:000 Text:hello'
+            return smppref.encode_sm(5, seq, src=b'1', dst=b'2', esm_class=0x04, short_message=text)
+
+        def on_pdu(conn, pdu):
+            for p in vsess.split_pdus(pdu)[0]:
+                cmd, seq = struct.unpack('>I', p[4:8])[0], struct.unpack('>I', p[12:16])[0]
+                if cmd in (1, 2, 9):
+                    conn.send(vsess.bind_resp_for(p))
+                    if conn.index == 1:
+                        conn.send(rc(8101), delay=1.0)            # the receipt that was never answered is sent again
+                elif cmd == 0x15:
+                    conn.send(smppref.header(0x80000015, 0, seq), delay=0.01)
+                elif cmd == 4 and conn.index == 0:
+                    obs['count'] += 1
+                    if obs['count'] == 2:                          # A (first) is never answered; M is accepted
+                        conn.send(smppref.header(0x80000004, 0, seq, b'mm1\x00'), delay=0.05)
+                        conn.send(rc(8100), delay=1.3)
+                elif cmd == 4:
+                    conn.send(smppref.header(0x80000004, 0, seq, b'idx%d\x00' % seq), delay=0.05)
+        smsc.on_pdu = on_pdu
+        fired = []
+        src = PhoneNumber('38591')
+
+        def mk(lid):
+            return SubmitSm(short_message='hello', source=src, destination=src, log_id=lid, extra_data='X' + lid, registered_delivery=1)
+
+        def egate(m, err):
+            if isinstance(m, SubmitSm) and m.log_id == 'A' and not fired:
+                fired.append(1)
+                smsc.conns[0].reset(delay=reset_after)
+                loop.call_later(reset_after + 0.05, lambda: asyncio.ensure_future(esme.broker.enqueue(mk('X'))))
+                return asyncio.sleep(hook_sleep)
+            return None
+        hook.error_gate = egate
+
+        async def main():
+            t = asyncio.create_task(esme.start())
+            await asyncio.sleep(0.5)
+            await esme.broker.enqueue(mk('A'))
+            await esme.broker.enqueue(mk('M'))
+            await asyncio.sleep(25.0)
+            obs['start_done'] = t.done()
+            obs['receipts'] = [(type(e[1]).__name__, getattr(e[1], 'log_id', None)) for e in hook.log
+                               if e[0] == 'received' and struct.unpack('>I', e[2][4:8])[0] == 5]
+            obs['conns'] = len(smsc.conns)
+            t.cancel()
+            try:
+                await t
+            except BaseException:  # noqa: BLE001
+                pass
+        loop.run_until_complete(main())
+    finally:
+        undo()
+        vsess.finish(loop)
+    return obs
+
+
+def oracle_receipt_during_teardown(obs):
+    if obs['start_done']:
+        return 'start() ended'
+    named = [r for r in obs['receipts'] if r == ('DeliverSm', 'M')]
+    if len(named) != 1:
+        return (f'the receipt for the accepted message M reached the received hook as {obs["receipts"]} ({obs["conns"]} connections): expected exactly '
+                f'one DeliverSm carrying the identity of M')
+    return None
+
+
 def oracle_late_receipt(obs, segmented):
     if obs['start_done']:
         return 'start() ended'
@@ -417,6 +505,15 @@ def run(ctx):
                 break
         if msg:
             ctx.violation(msg, {'function': 'history', 'history': [list(e) for e in hist]})
+    # ---- a receipt that is being handled when the session is torn down, and is repeated by the SMSC on the next session
+    for hook_sleep, reset_after in ((3.0, 0.2), (0.3, 0.1)):
+        obs = receipt_during_teardown_session(hook_sleep, reset_after)
+        ctx.traces += 1
+        ctx.case(('receipt_during_teardown', hook_sleep, reset_after), nontrivial=True)
+        msg = oracle_receipt_during_teardown(obs)
+        if msg:
+            ctx.violation(f'connection lost {reset_after} s into a {hook_sleep} s send_error hook called from the sweep of get_delivery(): {msg}',
+                          {'function': 'receipt_during_teardown', 'hook_sleep': hook_sleep, 'reset_after': reset_after})
     # ---- receipts that arrive long after the response time-to-live (hours, days), with correlator traffic in between
     for delay, keepalive in ((60.0, 5.0), (3600.0, 30.0), (2 * 86400.0, 3600.0)) + (((20.0, 1.0), (86400.0, 600.0)) if ctx.thorough else ()):
         for segmented in (False, True):
@@ -467,6 +564,12 @@ def replay(ctx, path):
     import json
     with open(path) as f:
         r = json.load(f)
+    if r.get('function') == 'receipt_during_teardown':
+        obs = receipt_during_teardown_session(r['hook_sleep'], r['reset_after'])
+        msg = oracle_receipt_during_teardown(obs)
+        print('replay: receipts at the hook:', obs['receipts'])
+        print('replay:', msg or 'property holds on this input')
+        return 1 if msg else 0
     if r.get('function') == 'late_receipt':
         obs = late_receipt_session(r['delay'], r['keepalive'], r['segmented'])
         msg = oracle_late_receipt(obs, r['segmented'])
